@@ -47,6 +47,9 @@ def with_refused_activation(rng, sc):
     if not fns or not enters:
         return sc
     bad = {"levels": [{"fn": rng.choice(fns), "caps": [], "sibs": []}], "focus": {"var": "nosuchvar", "as": "nosuchvar"}}
+    if rng.random() < 0.4:
+        # refused part-way: the chain runs through something that cannot be instrumented
+        bad = {"levels": [bad["levels"][0], {"fn": "NOTFN", "caps": [], "sibs": []}], "focus": {"var": "#value", "as": "v"}}
     at = enters[-1] + 1
     sc["ops"][at:at] = [{"op": "mk", "id": "bad", "kind": "probe", "sels": [bad], "nojudge": True, "expect_refusal": True},
                         {"op": "enter", "id": "bad"}]
